@@ -13,6 +13,11 @@ use std::time::Instant;
 pub const ENGINE_VERSION: u32 = 1;
 pub const VERIF_ROOT: &str = "/verif";
 
+/// where evidence and new replay files are written (VERIF_OUT overrides, for scratch runs)
+pub fn out_root() -> String {
+    std::env::var("VERIF_OUT").unwrap_or_else(|_| VERIF_ROOT.to_string())
+}
+
 #[derive(Clone, Debug)]
 pub struct Fail {
     /// root-cause key, stable across unrelated edits
@@ -1034,7 +1039,7 @@ pub fn run_prop(prop: &Prop, tier: Tier, seed: u64) -> RunReport {
         }
         let path = format!(
             "{}/replays/new/{}-{:016x}.tape",
-            VERIF_ROOT,
+            out_root(),
             prop.id,
             d.finish()
         );
@@ -1121,8 +1126,8 @@ pub fn run_prop(prop: &Prop, tier: Tier, seed: u64) -> RunReport {
         }
     }
     let evname = std::env::var("VERIF_EVIDENCE_NAME").unwrap_or_else(|_| format!("{}.json", prop.id));
-    let evpath = format!("{}/evidence/{}", VERIF_ROOT, evname);
-    let _ = std::fs::create_dir_all(format!("{}/evidence", VERIF_ROOT));
+    let evpath = format!("{}/evidence/{}", out_root(), evname);
+    let _ = std::fs::create_dir_all(format!("{}/evidence", out_root()));
     std::fs::write(&evpath, serde_json::to_string_pretty(&ev).unwrap()).expect("write evidence");
 
     println!(
